@@ -6,6 +6,7 @@ import numpy as np
 
 from .. import core, symbols
 from ..translate import etdrk as tr_etdrk
+from ..translate import linops as tr_linops
 
 ID = "C10"
 PROPS_FILE = "C10"
@@ -13,11 +14,21 @@ RULE = ("correspondence (exact rationals): the Leray projection (nonlin_fun.Lera
         "leray_mode / make_incompressible_mode at every stored mode, D = 2, 3; witness: zero spectral divergence, idempotence, invariance of divergence-free fields, agreement of the two routines "
         "for several L, the 3D projected convection term is divergence free for white noise, NavierStokesVelocity / KolmogorovFlowVelocity keep divergence-free states divergence free over rollouts "
         "for orders 0-4 and several domain extents (incl. large L). Non-trivial: non-mean modes; distinct by input hash.")
+TRUSTED_EXTRA = ["harness/translate/linops.py (make_incompressible: kinds / broadcasting reading of the arithmetic between fft and ifft) and harness/translate/etdrk.py (stage programs)"]
 ASSUMPTIONS = ["rfftn/irfftn of C04; Nyquist-free fields for the physical-space routine"]
 
 
 def translate(ctx):
-    tr_etdrk.run()
+    """Gen/ETDRK.v (stage programs) and Gen/LinOps.v (make_incompressible, tied by C10_code_make_incompressible_is_model); both are
+    always attempted"""
+    errors = []
+    for name, tr in (("etdrk", tr_etdrk), ("linops", tr_linops)):
+        try:
+            tr.run()
+        except Exception as e:
+            errors.append(f"{name}: {type(e).__name__}: {e}")
+    if errors:
+        raise RuntimeError("; ".join(errors))
 
 
 def _ex():
